@@ -17,6 +17,12 @@ What is read from the source (AST only) and emitted as Lean definitions that the
   and whether exactly the calls of `async_wrapper` are awaited;
 * `_split_by_signature`: the `*args` shortcut, the `break` test of the prefix loop as a Boolean function of
   (name in result?, kind positional?), and the shape of the returned pair.
+* the naming of a rejection: `ParameterException.from_validator_exception` (exceptions.py) - the expression handed to `cls(...)` as
+  `parameter_name`, as a function over names of (its `parameter_name` argument, `exception.parameter_name`), with Python's `or` /
+  `and` / conditional expression on strings ('' is falsy); what `ParameterException.__init__` stores in `self.parameter_name`; the
+  arguments with which the handler of the validator loop of `Parameter.validate` calls it (a function of (self.name, the name the
+  exception carries)); `Parameter.raise_exception` (the required / conversion path) names `self.name`; and
+  `Validator.validate_param` (abstract_validator.py): what it assigns to `ex.parameter_name` before re-raising;
 Anything outside these shapes raises Skip (the committed snapshot is used and the correspondence check alone decides).
 """
 import ast
@@ -24,6 +30,10 @@ from extract import Skip, src, find_func, lean_bool, HEADER
 
 REL = 'pedantic/decorators/fn_deco_validate/fn_deco_validate.py'
 REL_P = 'pedantic/decorators/fn_deco_validate/parameters/abstract_parameter.py'
+
+REL_E = 'pedantic/decorators/fn_deco_validate/exceptions.py'
+REL_V = 'pedantic/decorators/fn_deco_validate/validators/abstract_validator.py'
+EMPTY_NAME = 11          # index of '' in the harness's table of names (props/_validate_common.py: NAMES)
 
 MODES = {'ARGS': '.args', 'KWARGS_WITH_NONE': '.kwWithNone', 'KWARGS_WITHOUT_NONE': '.kwWithoutNone'}
 
@@ -138,6 +148,147 @@ def gen_validate_shape(ptree):
         if isinstance(s, ast.Try) and len(s.handlers) == 1 and is_name(s.handlers[0].type, 'ValidatorException'):
             handler_ok = any(isinstance(x, ast.Raise) for x in ast.walk(s.handlers[0]))
     return none_first, over_all, feeds and returns_acc, handler_ok
+
+
+# ---------------------------------------------------------------- the naming of a rejection
+
+def name_expr(node, env, what):
+    """Python expression over strings (names) -> Lean term over `Nat` names; `env`: source text -> Lean term"""
+    key = ast.unparse(node)
+    if key in env:
+        return env[key]
+    if isinstance(node, ast.Constant) and node.value == '':
+        return 'emptyName'
+    if isinstance(node, ast.BoolOp):
+        f = 'strOr' if isinstance(node.op, ast.Or) else 'strAnd'
+        out = name_expr(node.values[-1], env, what)
+        for v in reversed(node.values[:-1]):
+            out = f'({f} {name_expr(v, env, what)} {out})'
+        return out
+    if isinstance(node, ast.IfExp):
+        t = node.test
+        neg = False
+        if isinstance(t, ast.UnaryOp) and isinstance(t.op, ast.Not):
+            t, neg = t.operand, True
+        c = f'(strTruthy {name_expr(t, env, what)})'
+        a, b = name_expr(node.body, env, what), name_expr(node.orelse, env, what)
+        return f'(if {c} then {b} else {a})' if neg else f'(if {c} then {a} else {b})'
+    raise Skip(f'{what}: name expression outside the translated subset: {key[:80]}')
+
+
+def call_args(call, params, defaults, what):
+    """the arguments of a call bound to the callee's parameter names (`params` without self / cls); a missing one -> its default"""
+    if any(isinstance(a, ast.Starred) for a in call.args) or any(k.arg is None for k in call.keywords) or len(call.args) > len(params):
+        raise Skip(f'{what}: star arguments / too many positionals')
+    bound = dict(zip(params, call.args))
+    for k in call.keywords:
+        if k.arg not in params or k.arg in bound:
+            raise Skip(f'{what}: unexpected keyword {k.arg}')
+        bound[k.arg] = k.value
+    for n in params:
+        if n not in bound:
+            if n not in defaults:
+                raise Skip(f'{what}: argument {n} missing')
+            bound[n] = defaults[n]
+    return bound
+
+
+def fn_params(fn, skip_first=True):
+    a = fn.args
+    if a.vararg or a.kwarg or a.kwonlyargs or a.posonlyargs:
+        raise Skip(f'{fn.name}: unexpected kinds of parameters')
+    names = [x.arg for x in a.args][(1 if skip_first else 0):]
+    defaults = dict(zip([x.arg for x in a.args][len(a.args) - len(a.defaults):], a.defaults))
+    return names, defaults
+
+
+def stores_in_self(init, attr):
+    """the expression `__init__` stores in `self.<attr>` (exactly one plain assignment)"""
+    hits = [s.value for s in ast.walk(init) if isinstance(s, ast.Assign) and len(s.targets) == 1 and isinstance(s.targets[0], ast.Attribute)
+            and is_name(s.targets[0].value, 'self') and s.targets[0].attr == attr]
+    if len(hits) != 1:
+        raise Skip(f'{init.name}: self.{attr} is not assigned exactly once')
+    return hits[0]
+
+
+def gen_naming(etree, ptree, vtree):
+    # --- ParameterException.__init__ / ValidatorException.__init__ store the name they are given
+    pinit = find_func(etree, '__init__', cls='ParameterException')
+    stored = name_expr(stores_in_self(pinit, 'parameter_name'), {'parameter_name': 'parameterName'}, 'ParameterException.__init__')
+    vinit = find_func(etree, '__init__', cls='ValidatorException')
+    vnames, vdefaults = fn_params(vinit)
+    vstored = name_expr(stores_in_self(vinit, 'parameter_name'), {'parameter_name': 'parameterName'}, 'ValidatorException.__init__')
+    vdefault = name_expr(vdefaults['parameter_name'], {}, 'ValidatorException.__init__') if 'parameter_name' in vdefaults else None
+    if vdefault is None:
+        raise Skip('ValidatorException.__init__: parameter_name has no default')
+    # --- from_validator_exception: `return cls(..., parameter_name=<expr>)`
+    fve = find_func(etree, 'from_validator_exception', cls='ParameterException')
+    if not any(is_name(d, 'classmethod') for d in fve.decorator_list):
+        raise Skip('from_validator_exception is not a classmethod')
+    fnames, fdefaults = fn_params(fve)
+    if fnames != ['exception', 'parameter_name']:
+        raise Skip(f'from_validator_exception: unexpected parameters {fnames}')
+    body = strip_doc(fve.body)
+    if len(body) != 1 or not isinstance(body[0], ast.Return) or not isinstance(body[0].value, ast.Call) or not is_name(body[0].value.func, 'cls'):
+        raise Skip('from_validator_exception: body is not a single `return cls(...)`')
+    pnames, pdefaults = fn_params(pinit)
+    bound = call_args(body[0].value, pnames, pdefaults, 'from_validator_exception')
+    env = {'parameter_name': 'parameterName', 'exception.parameter_name': 'excParameterName'}
+    fve_rule = name_expr(bound['parameter_name'], env, 'from_validator_exception')
+    fve_default = name_expr(fdefaults['parameter_name'], {}, 'from_validator_exception') if 'parameter_name' in fdefaults else None
+    # --- the handler of the validator loop in Parameter.validate
+    pv = find_func(ptree, 'validate', cls='Parameter')
+    handlers = [h for t in ast.walk(pv) if isinstance(t, ast.Try) for h in t.handlers if is_name(h.type, 'ValidatorException')]
+    if len(handlers) != 1 or not handlers[0].name:
+        raise Skip('Parameter.validate: expected one `except ValidatorException as <e>` handler')
+    h = handlers[0]
+    hb = strip_doc(h.body)
+    if len(hb) != 1 or not isinstance(hb[0], ast.Raise) or not isinstance(hb[0].exc, ast.Call):
+        raise Skip('Parameter.validate: the handler is not a single `raise <call>`')
+    call = hb[0].exc
+    if not (isinstance(call.func, ast.Attribute) and call.func.attr == 'from_validator_exception'
+            and ast.unparse(call.func.value) in ('self.exception_type', 'ParameterException', 'type(self).exception_type')):
+        raise Skip('Parameter.validate: the handler does not raise <exception type>.from_validator_exception(...)')
+    hbound = call_args(call, fnames, fdefaults, 'Parameter.validate handler')
+    if not is_name(hbound['exception'], h.name):
+        raise Skip('Parameter.validate: the handler does not pass the caught exception on')
+    handler_rule = name_expr(hbound['parameter_name'], {'self.name': 'selfName', f'{h.name}.parameter_name': 'excParameterName'}, 'Parameter.validate handler')
+    # --- Parameter.raise_exception: the required / conversion path
+    prx = find_func(ptree, 'raise_exception', cls='Parameter')
+    rb = strip_doc(prx.body)
+    if len(rb) != 1 or not isinstance(rb[0], ast.Raise) or not isinstance(rb[0].exc, ast.Call) \
+            or ast.unparse(rb[0].exc.func) not in ('self.exception_type', 'ParameterException'):
+        raise Skip('Parameter.raise_exception is not a single `raise self.exception_type(...)`')
+    rbound = call_args(rb[0].exc, pnames, pdefaults, 'Parameter.raise_exception')
+    raise_rule = name_expr(rbound['parameter_name'], {'self.name': 'selfName'}, 'Parameter.raise_exception')
+    # --- Validator.validate_param
+    vp = find_func(vtree, 'validate_param', cls='Validator')
+    vpn, _ = fn_params(vp)
+    if vpn != ['value', 'parameter_name']:
+        raise Skip(f'validate_param: unexpected parameters {vpn}')
+    vb = strip_doc(vp.body)
+    if len(vb) != 1 or not isinstance(vb[0], ast.Try) or vb[0].orelse or vb[0].finalbody or len(vb[0].handlers) != 1:
+        raise Skip('validate_param: body is not a single try / except')
+    t = vb[0]
+    tb = strip_doc(t.body)
+    if not (len(tb) == 1 and isinstance(tb[0], ast.Return) and isinstance(tb[0].value, ast.Call)
+            and ast.unparse(tb[0].value.func) == 'self.validate' and
+            [ast.unparse(a) for a in tb[0].value.args] + [ast.unparse(k.value) for k in tb[0].value.keywords] == ['value']):
+        raise Skip('validate_param: the try body is not `return self.validate(value)`')
+    vh = t.handlers[0]
+    if not is_name(vh.type, 'ValidatorException') or not vh.name:
+        raise Skip('validate_param: the handler is not `except ValidatorException as <ex>`')
+    vp_rule = 'carried'
+    stmts = strip_doc(vh.body)
+    if not stmts or not isinstance(stmts[-1], ast.Raise) or not (stmts[-1].exc is None or is_name(stmts[-1].exc, vh.name)):
+        raise Skip('validate_param: the handler does not end by re-raising the exception')
+    for st in stmts[:-1]:
+        if isinstance(st, ast.Assign) and len(st.targets) == 1 and ast.unparse(st.targets[0]) == f'{vh.name}.parameter_name':
+            vp_rule = name_expr(st.value, {'parameter_name': 'parameterName', f'{vh.name}.parameter_name': vp_rule}, 'validate_param')
+        else:
+            raise Skip(f'validate_param: handler statement outside the subset: {ast.unparse(st)[:60]}')
+    return dict(stored=stored, vstored=vstored, vdefault=vdefault, fve_rule=fve_rule, fve_default=fve_default or 'emptyName',
+                handler_rule=handler_rule, raise_rule=raise_rule, vp_rule=vp_rule)
 
 
 # ---------------------------------------------------------------- _wrapper_content: loop order
@@ -550,8 +701,9 @@ def gen_validate(repo):
     wants_rule, zip_test = gen_wants_args(find_func(tree, 'validate'), find_func(tree, '_wrapper_content'))
     per_call = all(bookkeeping_is_per_call(find_func(tree, f)) for f in ('_wrapper_content', 'wrapper', 'async_wrapper', '_split_by_signature'))
     stateless = validate_is_stateless(ptree)
+    nm = gen_naming(ast.parse(src(repo, REL_E)), ptree, ast.parse(src(repo, REL_V)))
     under = ' | '.join(f'.{k} => {lean_bool(u)}' for k, u in sorted(loops))
-    return HEADER.format(rel=REL + ' and ' + REL_P) + f'''set_option linter.unusedVariables false
+    return HEADER.format(rel=REL + ', ' + REL_P + ', ' + REL_E + ' and ' + REL_V) + f'''set_option linter.unusedVariables false
 namespace PedVerif.Gen.Validate
 
 /-! ### `Parameter.__init__` / `Parameter.validate` -/
@@ -566,6 +718,36 @@ def chainOverAllValidators : Bool := {lean_bool(over_all)}
 def chainFeedsPredecessorOutput : Bool := {lean_bool(feeds)}
 /-- exactly `ValidatorException` is mapped to the parameter's exception type -/
 def chainHandlerIsValidatorException : Bool := {lean_bool(handler_ok)}
+
+/-! ### the naming of a rejection: `exceptions.py`, the handler of the validator loop, `Validator.validate_param`
+
+Names are numbers (the harness's table of names); `emptyName` is the empty string `''`, the only falsy one. -/
+
+def emptyName : Nat := {EMPTY_NAME}
+/-- `bool(s)` of a string -/
+def strTruthy (a : Nat) : Bool := a != emptyName
+/-- Python's `a or b` / `a and b` on strings -/
+def strOr (a b : Nat) : Nat := if strTruthy a then a else b
+def strAnd (a b : Nat) : Nat := if strTruthy a then b else a
+/-- {REL_E}: what `ValidatorException.__init__` / `ParameterException.__init__` store in `self.parameter_name`, as a function of
+    their `parameter_name` argument; the default of that argument of `ValidatorException.__init__` -/
+def validatorExceptionStoresName (parameterName : Nat) : Nat := {nm['vstored']}
+def validatorExceptionDefaultName : Nat := {nm['vdefault']}
+def parameterExceptionStoresName (parameterName : Nat) : Nat := {nm['stored']}
+/-- `ParameterException.from_validator_exception(exception, parameter_name)`: the `parameter_name` handed to `cls(...)`, as a
+    function of the `parameter_name` argument and of `exception.parameter_name` -/
+def fromValidatorExceptionName (parameterName excParameterName : Nat) : Nat := {nm['fve_rule']}
+/-- the default of its `parameter_name` argument -/
+def fromValidatorExceptionDefaultName : Nat := {nm['fve_default']}
+/-- {REL_P}: the handler `except ValidatorException as e: raise <type>.from_validator_exception(...)` of the validator loop:
+    the `parameter_name` attribute of the exception that is raised, as a function of `self.name` and of `e.parameter_name` -/
+def chainHandlerName (selfName excParameterName : Nat) : Nat :=
+  parameterExceptionStoresName (fromValidatorExceptionName {nm['handler_rule']} excParameterName)
+/-- `Parameter.raise_exception` (value None / missing for a required parameter, conversion failed): the `parameter_name` -/
+def raiseExceptionName (selfName : Nat) : Nat := parameterExceptionStoresName {nm['raise_rule']}
+/-- {REL_V}: `Validator.validate_param(value, parameter_name)`: the `parameter_name` attribute of the re-raised
+    `ValidatorException`, as a function of the `parameter_name` argument and of the name the exception carried -/
+def validateParamName (parameterName carried : Nat) : Nat := {nm['vp_rule']}
 
 /-! ### `_wrapper_content` -/
 
